@@ -228,6 +228,19 @@ example :
     parsePair "%6b=%76" = some ("k", "v") ∧ parsePair "k=v=w" = some ("k", "v=w") ∧
     parsePieces ["q=books", "ref=100%zz", "%zz=1", "k=v"] = [("q", "books"), ("k", "v")] := by decide
 
+/-! ### percent escapes in the transaction URL -/
+
+/-- The URL is matched as sent: `a%2Fb` is ONE segment (`splitURL` splits the raw text, nothing is decoded), so
+    `files/{name}` accepts it, `files/{name}/{part}` and the literal `files/a/b` do not — request and response. -/
+example :
+    let f1 := plain "f1" "a.com/files/{name}" (hostACom ++ [seg "files", ⟨false, .par "name"⟩])
+    let f2 := plain "f2" "a.com/files/{name}/{part}" (hostACom ++ [seg "files", ⟨false, .par "name"⟩, ⟨false, .par "part"⟩])
+    let f3 := plain "f3" "a.com/files/a/b" (hostACom ++ [seg "files", seg "a", seg "b"])
+    let u := hostACom ++ [seg "files", seg "a%2Fb"]
+    answer [f1, f2, f3] (req "GET" u) = some ⟨true, ["f1"], [], []⟩ ∧
+    answer [f1, f2, f3] { (req "GET" u) with isResp := true, status := 200 } = some ⟨true, ["f1"], [], []⟩ ∧
+    verdict [f1, f2, f3] (req "GET" u) = some (true, true, true) := by decide
+
 /-! ### early responses -/
 
 /-- The response walk of an EARLY response (a processor answered the request: the filter tree is asked again
